@@ -23,7 +23,7 @@ Not decided: termination in bounded time, panics inside third-party crates (trus
 import os
 import re
 
-from . import facts, hirq as H, mirq as M, common as C, reach, lenflow, budget, c14
+from . import facts, hirq as H, mirq as M, common as C, reach, lenflow, budget, c14, loops
 
 LEVEL_TEXT = ("All MIR bodies reachable from the 80+ reading entry points (about 1600 functions of ten crates) are scanned; every may-panic site "
               "(about 330) is discharged by a range proof over the HIR, by the cursor budget analysis, by a boundary proof, or by an audited row; "
@@ -174,6 +174,9 @@ def full_text(hirfn):
         if H.kind(m) == "match":
             for arm in m[4]:
                 parts.append(H.show_pat(arm[0]) + (" if " + H.show(arm[1], 12) if arm[1] is not None else "") + " => " + H.show(arm[2], 30))
+        elif H.kind(m) == "loop":
+            for x in H.children(m):
+                parts.append("loop " + H.show(x, 30))
     return "\n".join(parts)
 
 
@@ -453,4 +456,30 @@ def run(chk, tier):
         with open(os.environ["C05_DUMP"] + ".alloc", "w") as fh:
             for k, loc in adump:
                 fh.write(f"{k}\t{loc}\n")
-    chk.undecided.append("termination / bounded time; panics inside third-party crates; memory exhaustion at the known-finding allocation sites")
+    # ------------------------------------------------------------------ loops
+    chk.rule("loop-progress", "every loop (CFG cycle) in reachable reader code passes, on every cycle, a block that consumes input / advances an iterator or cursor / moves a counter (rules/loops.py)")
+    chk.assume("iterators driven by Iterator::next are finite or consume the input; a counter moved by a constant in a loop is bounded by that loop's exit test; serde's MapAccess/SeqAccess consume the JSON document")
+    LOOP_AUDIT = {
+        "dicom_parser::stateful::decode::trim_trail_empty_bytes": ("the slice shrinks by one element per iteration (`x = &x[..x.len() - 1]`) and the loop runs only while `x.last()` is Some", r"x = &x\[core::ops::range::RangeTo\{end: \(x\.len\(\) Sub 1\)\}\]"),
+    }
+    consuming = loops.consuming_functions(g)
+    n_loops = 0
+    for p in sorted(seen):
+        bad, n = loops.analyse(g, p, consuming)
+        n_loops += n
+        if n and not bad:
+            chk.ok("loop-progress", p, f"{n} loop(s)", "every cycle passes a progress block")
+        for x in bad:
+            f = g.fns[p]
+            loc = f"{f['loc']['f']}:{x['head_line']}"
+            if p in LOOP_AUDIT:
+                reason, rx = LOOP_AUDIT[p]
+                h = hir_of(root_of(g, p))
+                if h is not None and re.search(rx, full_text(h), re.S):
+                    chk.ok("loop-progress", p, f"loop@{len(x['blocks'])}blocks", "audited: " + reason)
+                    continue
+            chk.bad("loop-progress", p, "cycle-without-progress", "every cycle consumes input, advances an iterator/cursor or moves a counter",
+                    {"loop_head_line": x["head_line"], "progress-free cycle (lines)": x["lines"], "reached_via": " -> ".join(q.split("::")[-1] for q in g.chain(seen, p, 8))}, loc=loc)
+    chk.floor("loop-progress", "loops in reachable bodies", n_loops, 40)
+    chk.analysed["loops"] = {"loops": n_loops, "consuming_functions": len(consuming)}
+    chk.undecided.append("termination in bounded *time* (loop-progress shows that every loop consumes a finite resource, not how long it takes); panics inside third-party crates; memory exhaustion at the known-finding allocation sites")
